@@ -462,7 +462,7 @@ def judge_node(tr):
 
 def revoke_corr(ctx, model_ok, release=False):
     quick = ctx.tier == "quick"
-    n_scen, max_steps = (128, 140) if quick else ((300, 160) if release else (800, 200))
+    n_scen, max_steps = (200, 140) if quick else ((300, 160) if release else (800, 200))
     pre = "release_" if release else ""
     seed = ctx.rng.fork("revoke-release" if release else "revoke").next() & ((1 << 62) - 1)
     batches = 8 if quick else 16
